@@ -28,6 +28,10 @@ CHECKS = {
             "The same ops are executed in separate interpreters started with different PYTHONHASHSEED values, temp-dir names and simulated clock rates; specification JSON files, logs (greedy id lists), emitted files, CSVs (time columns excluded) and printed totals must have equal digests pairwise.",
             "Greedy back-ends only (the statement is about specification generation and greedy search); 4-5 process schedules per op.",
             TECH + ": process-schedule variation (hash seed, temp dir, clock) with pairwise artefact digests"),
+    "C11": ("fault_enumeration", "§5 C11",
+            "Op sequences Optimize(-log) -> Replay on the simulated disk: byte-for-byte fidelity of the replay; crash points (kill / power loss) placed on I/O events between the first write of the log and the close of the output file, then Restart + Replay from the surviving image (error, crash-free output, or code equivalent to the input) and Restart + Optimize (must reproduce the crash-free output and log); logs tampered by id substitution/deletion/duplication/permutation/foreign insertion, swapped or renamed keys, truncation and single-bit flips must be rejected or yield R1-equivalent code.",
+            "Crash points are sampled inside the write window in the quick tier (enumerated in the thorough tier for windows <= 400 events); tamper edits sampled (<= 3 edits); durable-image model in gsim/core/simfs.py; R1 decides equivalence on sampled states.",
+            TECH + ": crash-point placement with durable-image model, stored-byte corruption of logs, restart and replay ops"),
 }
 NA = {
     "C03": "pure function of a term on 256-bit words: no schedule, clock, peer, file, crash or history between term and rewritten term (rule bait still runs through C01/C02 as a side effect)",
